@@ -259,6 +259,11 @@ func (e *c08Env) record(t kemtypes.WatchEventType, name string, obj map[string]a
 		e.states[name] = obj
 	}
 	e.c.Note("ev:" + string(t))
+	if e.jq != "" {
+		if _, err := kem.VerifApplyFilterC08(e.jq, &unstructured.Unstructured{Object: deepCopyJSON(obj)}); err != nil {
+			e.c.Note("filter-fails-on-state:" + string(t)) // the change is dropped as a whole (see notes/C08.md)
+		}
+	}
 	if got == 1 {
 		e.c.Note("fired:" + string(t))
 	}
@@ -461,7 +466,7 @@ func runC08(r *Run) {
 	})
 
 	// ---- generated histories
-	n := r.N(3000, 20000)
+	n := r.N(3000, 60000)
 	r.Cases(100, n, 0, func(c *Case, rng *Rng) {
 		var f *jqF
 		if rng.Chance(85) {
@@ -495,7 +500,7 @@ func runC08(r *Run) {
 	})
 
 	// ---- cluster mode: the informer is started on the fake client, changes happen in the cluster
-	nc := r.N(40, 400)
+	nc := r.N(40, 1000)
 	r.Cases(500000, nc, 8, func(c *Case, rng *Rng) {
 		c08ClusterCase(c, rng)
 	})
